@@ -527,15 +527,21 @@ class BzrUploader:
         self._up_rename(old_relpath, stamp)
         self._pending_renames.append((stamp, new_relpath))
 
-    def finish_renames(self):
+    def finish_renames(self, new_dirs=()):
         """Complete all pending rename operations.
 
         Finishes the two-stage rename process by renaming all temporarily
         named files to their final destinations.
         """
-        # Parents first: a renamed directory may receive renamed children.
-        for stamp, new_path in sorted(self._pending_renames, key=lambda r: r[1]):
-            self._up_rename(stamp, new_path)
+        # Parents first: a renamed directory may receive renamed children, a
+        # new directory (new_dirs) may be the destination of a rename.
+        steps = [(new_path, stamp) for stamp, new_path in self._pending_renames]
+        steps.extend((relpath, None) for relpath in new_dirs)
+        for new_path, stamp in sorted(steps, key=lambda step: step[0]):
+            if stamp is None:
+                self.make_remote_dir(new_path)
+            else:
+                self._up_rename(stamp, new_path)
         # The following shouldn't be needed since we use it once per upload,
         # but better safe than sorry ;-)
         self._pending_renames = []
@@ -650,7 +656,23 @@ class BzrUploader:
                 self.rename_remote(change.path[0], change.path[1])
             # Removed directories are empty now; their paths may be reused.
             self.finish_deletions()
-            self.finish_renames()
+            # A directory that appears in this revision may be the destination
+            # of a rename: create those together with the renames.
+            to_add = sorted(
+                changes.added + changes.copied + renamed_from_ignored,
+                key=lambda change: change.path[1],
+            )
+            new_dirs = [
+                change.path[1]
+                for change in to_add
+                if change.kind[1] == "directory"
+                and not self.is_ignored(change.path[1])
+                and any(
+                    new_path.startswith(change.path[1] + "/")
+                    for _, new_path in self._pending_renames
+                )
+            ]
+            self.finish_renames(new_dirs)
 
             for change in changes.kind_changed:
                 if self.is_ignored(change.path[1]):
@@ -676,7 +698,7 @@ class BzrUploader:
                 else:
                     raise NotImplementedError
 
-            for change in changes.added + changes.copied + renamed_from_ignored:
+            for change in to_add:
                 if self.is_ignored(change.path[1]):
                     if not self.quiet:
                         self.outf.write(f"Ignoring {change.path[1]}\n")
@@ -684,7 +706,8 @@ class BzrUploader:
                 if change.kind[1] == "file":
                     self.upload_file(change.path[1], change.path[1])
                 elif change.kind[1] == "directory":
-                    self.make_remote_dir(change.path[1])
+                    if change.path[1] not in new_dirs:
+                        self.make_remote_dir(change.path[1])
                 elif change.kind[1] == "symlink":
                     target = self.tree.get_symlink_target(change.path[1])
                     try:
